@@ -6,6 +6,7 @@ CONSTANTS
   FileModes = {TRUE}
   Palettes = {0}
   Kinds = {}
+  RestartResizes = FALSE
   AnonModes = {FALSE}
   AllowWindow = TRUE
   EmitEdges = FALSE
